@@ -14,7 +14,7 @@ MODULES = {
     "prefilter": dict(file="kani/prefilter.rs", pkg="nucleo-matcher", inject="matcher/src/prefilter.rs", parent="prefilter", needs=["spec"]),
     "exact": dict(file="kani/exact.rs", pkg="nucleo-matcher", inject="matcher/src/exact.rs", parent="exact", needs=["spec"]),
     "greedy": dict(file="kani/greedy.rs", pkg="nucleo-matcher", inject="matcher/src/fuzzy_greedy.rs", parent="fuzzy_greedy", needs=["spec"]),
-    "optimal": dict(file="kani/optimal.rs", pkg="nucleo-matcher", inject="matcher/src/fuzzy_optimal.rs", parent="fuzzy_optimal", needs=["spec", "optimal_steps"]),
+    "optimal": dict(file="kani/optimal.rs", pkg="nucleo-matcher", inject="matcher/src/fuzzy_optimal.rs", parent="fuzzy_optimal", needs=["spec", "optimal_steps", "charmodel"]),
     "entry": dict(file="kani/entry.rs", pkg="nucleo-matcher", inject="matcher/src/lib.rs", parent="", needs=["spec", "optimal"]),
     "boxcar": dict(file="kani/boxcar.rs", pkg="nucleo", inject="src/boxcar.rs", parent="boxcar"),
     "par_sort": dict(file="kani/par_sort.rs", pkg="nucleo", inject="src/par_sort.rs", parent="par_sort"),
@@ -253,6 +253,10 @@ for (h, nid) in ((3, 2),):
     UC("c02-sub-ascii-needle%d-h%d" % (nid, h), "exact", "sub_ascii_concrete_needle::<%d,%d,0>()" % (h, nid), {"C02": "quick"}, "bounded", EXACT_FNS[1:],
        "substring_match_ascii with the concrete needle %s on every ASCII haystack of %d bytes: decision, leftmost best occurrence, contiguous valid witness, score, None appends nothing" % (CN[nid], h),
        unwind=7, bound="ASCII haystack %d (all bytes), concrete needle %s, DEFAULT" % (h, CN[nid]), cost=3, core=True)
+for (h, n, pl, k) in ((4, 2, 1, 0), (4, 2, 1, 1), (5, 2, 1, 0), (5, 3, 2, 0), (5, 3, 1, 0)):
+    UC("c05-sub-prefilter-callee-h%d-n%d-p%d-k%d" % (h, n, pl, k), "exact", "sub_ascii_with_prefilter::<%d,%d,%d,%d>()" % (h, n, pl, k), {"C05": "quick", "C04": "quick"}, "bounded", ["exact::Matcher::substring_match_ascii_with_prefilter"],
+       "substring_match_ascii_with_prefilter against its contract: given the candidate positions its three call sites supply (every position where the first %d needle character(s) occur in the folded haystack, in increasing order), score 0 <=> no occurrence, otherwise the leftmost occurrence whose first character earns the highest bonus, score 16 + 2*bonus" % pl,
+       unwind=max(h + 3, 7), bound="ASCII haystack %d and needle %d (all bytes, needle folded), ignore_case, symbolic normalize, %s; candidate iterator built from the precondition instead of memchr/memmem" % (h, n, CFGNAME[k]), cost=2, core=((h, n, pl, k) == (4, 2, 1, 0)))
 UC("c05-exact-canary", "exact", "exact_canary()", {"C05": "quick"}, "bounded", [], "canary", unwind=8, expect="fail", no_cover=True)
 
 # public entry points, ASCII x ASCII
@@ -377,6 +381,10 @@ U("c01-charmodel-valid-non-ascii", "charmodel", "c01_charmodel_valid_non_ascii",
   "for each of the 16 non-ASCII characters of the model domain: the real to_lower_case / is_upper_case / normalize / char_class_non_ascii / is_whitespace return what the model table says", cost=6, core=True)
 U("c01-charmodel-valid-ascii", "charmodel", "c01_charmodel_valid_ascii", CM_PROPS, "complete", ["chars::to_lower_case", "chars::is_upper_case", "chars::normalize::normalize"],
   "for all 128 ASCII characters: the real to_lower_case / is_upper_case / normalize return what the model table says")
+for (h, n, k) in ((4, 3, 0), (4, 3, 1), (5, 3, 0)):
+    UC("c10-opt-setup-char-h%d-n%d-k%d" % (h, n, k), "optimal", "opt_setup_char::<%d,%d,%d>()" % (h, n, k), {"C10": "quick", "C01": "quick"}, "bounded", ["fuzzy_optimal::MatcherDataView::setup"],
+       "MatcherDataView::setup (code-point haystack) against its contract: true <=> the needle is a normalised subsequence of the window; window copy normalised, bonus[i] the position bonus; when true every row_offs[k] holds the leftmost-embedding position (no entry is left as stale scratch memory)",
+       unwind=max(h + 3, 7), bound="window of %d code points holding ASCII values (all bytes) with arbitrary earlier slab content (128 symbolic bytes), ASCII needle %d (all bytes, folded), %s, symbolic ignore_case/normalize; the non-ASCII branches of the character functions (unreachable for these values) replaced by the character model; precondition = postcondition of prefilter_non_ascii" % (h, n, CFGNAME[k]), cost=2, core=((h, n, k) == (4, 3, 0)), stubs=CHAR_STUBS)
 REPNAME = {1: "Unicode x Ascii", 2: "Unicode x Unicode", 3: "Ascii x Unicode(ASCII-only needle)", 4: "Unicode(ASCII-only haystack) x Ascii"}
 UNI_FNS = {0: ["Matcher::fuzzy_matcher_impl", "Matcher::prefilter_non_ascii", "Matcher::substring_match_1_non_ascii", "Matcher::fuzzy_match_optimal::<char,_>", "Matcher::exact_match_impl"],
            1: ["Matcher::fuzzy_match_greedy_impl", "Matcher::prefilter_non_ascii", "Matcher::fuzzy_match_greedy_::<char,_>"],
